@@ -238,6 +238,13 @@ class HybridGibbs:
             if not isinstance(sampler, NUTS): # Again, special case for NUTS.
                 sampler.set_state(sampler_state)
                 sampler.set_history(sampler_history)
+                # The restored cached evaluations belong to the previous conditional target: re-evaluate them
+                if getattr(sampler, 'current_target_logd', None) is not None:
+                    sampler.current_target_logd = sampler.target.logd(sampler.current_point)
+                if getattr(sampler, 'current_target_grad', None) is not None:
+                    sampler.current_target_grad = sampler.target.gradient(sampler.current_point)
+                if getattr(sampler, 'current_likelihood_logd', None) is not None:
+                    sampler.current_likelihood_logd = sampler.target.likelihood.logd(sampler.current_point)
 
             # Run pre_warmup and pre_sample methods for sampler
             # TODO. Some samplers (NUTS) seem to require to run _pre_warmup before _pre_sample
